@@ -15,6 +15,13 @@ def main():
     from . import symctx, statehygiene  # noqa: F401
 
     mod = importlib.import_module(modname)
+    # import everything prov may import lazily NOW (outside tracing): C-backed / heavy third-party modules must not
+    # be imported while CrossHair's tracer is active
+    for m in getattr(mod, "PRELOAD", ()) or ("prov.model", "prov.serializers.provjson", "prov.serializers.provn"):
+        try:
+            importlib.import_module(m)
+        except Exception as e:  # noqa
+            print("preload failed", m, e)
     statehygiene.install()
     ob = [o for o in mod.OBLIGATIONS if o.name == obname][0]
     params = ob.shards(tier)[int(shard_idx)]
